@@ -3,6 +3,7 @@ package c11
 import (
 	"fmt"
 	"math"
+	"regexp"
 	"runtime/debug"
 	"strings"
 
@@ -790,15 +791,26 @@ func Prop() *fw.Property {
 		},
 		Families: families,
 		KnownPredicates: map[string]func(v *fw.Violation) bool{
-			// one matcher per root cause seen on the pinned tree (classes are specific enough)
-			"ellipse-centre-shortcut":        classIs("ps:geometry(P=8)", "ps:geometry(P=3)", "pdf:geometry(P=8)", "pdf:geometry(P=3)"),
+			// one matcher per root cause seen on the pinned tree; where a class is shared by
+			// several possible causes the matcher also looks for the cause's signature
+			"dec-carry-drops-digit": func(v *fw.Violation) bool {
+				// ToPDF/ToPS print 99.9999996 as "10.": a number token that ends in a dot
+				return (strings.HasPrefix(v.Class, "pdf:geometry") || strings.HasPrefix(v.Class, "ps:geometry")) && decCarryRe.MatchString(v.Detail)
+			},
+			"lineto-merges-reversal": func(v *fw.Violation) bool {
+				// the parser's LineTo merged a reversal: H/V (or L) going back over the previous one
+				return v.Class == "parse:malformed-result:zero-length-segment" ||
+					(strings.HasPrefix(v.Class, "svg-roundtrip:geometry") && reversalRe.MatchString(v.Detail))
+			},
 			"parser-whitespace-only-panics":  classIs("parse:panic"),
 			"parsesvg-bad-path-data-panics":  classIs("parsesvg:panic"),
-			"lineto-merges-reversal":         classIs("parse:malformed-result:zero-length-segment", "svg-roundtrip:geometry(P=8)", "svg-roundtrip:geometry(P=3)"),
 			"non-canonical-data-from-append": classIs("string-roundtrip:differs(same trace, other commands)"),
 		},
 	}
 }
+
+var decCarryRe = regexp.MustCompile(`[ "]-?[0-9]+\.[ "]`)
+var reversalRe = regexp.MustCompile(`(V[-+0-9.e]+V|H[-+0-9.e]+H)`)
 
 func classIs(cs ...string) func(v *fw.Violation) bool {
 	return func(v *fw.Violation) bool {
